@@ -39,6 +39,40 @@ def run(F, X, rep):
 POLL_BOUND_SECS = 60        # the property's anchor: "poll every 60 s plus block_added subscription"
 
 
+def _num(e):
+    """value of a constant integer expression (literals, named constants, + - * / of those), else None"""
+    e = strip(e)
+    if e[0] == "const":
+        return e[2] if isinstance(e[2], (int, float)) else None
+    if e[0] == "cast":
+        return _num(e[4])
+    if e[0] == "field" and e[1] == "0" and strip(e[4])[0] == "bin":
+        return _num(e[4])                         # (a * b).0 of the overflow-checked form
+    if e[0] == "bin":
+        x, y = _num(e[2]), _num(e[3])
+        if x is None or y is None:
+            return None
+        op = e[1].replace("WithOverflow", "").replace("Unchecked", "")
+        return {"Mul": lambda: x * y, "Add": lambda: x + y, "Sub": lambda: x - y, "Div": lambda: (x // y if y else None)}.get(op, lambda: None)()
+    return None
+
+
+def _duration_secs(e):
+    """seconds of a constant std::time::Duration expression, else None"""
+    e = strip(e)
+    if e[0] != "call" or not e[1].startswith("std::time::Duration::"):
+        return None
+    m = e[1].split("::")[-1]
+    unit = {"from_secs": 1.0, "from_millis": 1e-3, "from_micros": 1e-6, "from_nanos": 1e-9, "from_mins": 60.0, "from_hours": 3600.0}.get(m)
+    if unit is not None and len(e[2]) == 1:
+        v = _num(e[2][0])
+        return None if v is None else v * unit
+    if m == "new" and len(e[2]) == 2:
+        a, b = _num(e[2][0]), _num(e[2][1])
+        return None if a is None or b is None else a + b * 1e-9
+    return None
+
+
 def c_one_cell(F, X, rep, rid="C20-C"):
     rep.rule(rid, "there is ONE height cell: the Arc<Mutex<u32>> is created at one site and the field holding it is never re-assigned - the poll task, the notification handler and the reader all share it (a second cell splits the sources: the poll would raise a cell nobody reads)")
     news = []
@@ -256,19 +290,11 @@ def l_poll_loop(F, X, rep, rid="C20-L"):
                detail="" if okk else "a poll outcome ends the loop (return at %s reachable without passing the select)" % (loc(b.term(esc[0])["sp"]) if esc else "?"))
     slc = sel.futures[sl[0]]
     e = strip(X.operand(b, slc.args[0]))
-    const = None
-    for x in walk(e):
-        if x[0] == "const" and x[2] is not None:
-            const = x[2]
-    ok = const is not None and const > 0 and all(x[0] not in ("param", "field") for x in walk(e))
-    rep.ob(rid, ok, fn, "poll interval is a positive constant", where=slc.loc, how="%s s" % const, detail="" if ok else "poll interval is %s" % show(e)[:60])
+    secs = _duration_secs(e)
+    ok = secs is not None and secs > 0
+    rep.ob(rid, ok, fn, "poll interval is a positive constant", where=slc.loc, how="%s s" % secs, detail="" if ok else "poll interval is %s" % show(e)[:60])
     # "within one poll interval": the property's anchor names the interval ("poll every 60 s"); a longer constant leaves the height stale
     # for longer than the bound a user of the property relies on (a shorter one only polls more often)
-    unit = [x[1] for x in walk(e) if x[0] == "call" and x[1].startswith("std::time::Duration::from_")]
-    secs = None
-    if ok and len(unit) == 1:
-        secs = {"from_secs": 1.0, "from_millis": 1e-3, "from_micros": 1e-6, "from_nanos": 1e-9, "from_mins": 60.0, "from_hours": 3600.0}.get(unit[0].split("::")[-1])
-        secs = None if secs is None else secs * const
     okb = secs is not None and secs <= POLL_BOUND_SECS
     rep.ob(rid, okb, fn, "poll interval is at most the %d s the property names" % POLL_BOUND_SECS, where=slc.loc, how="%s s" % secs,
            detail="" if okb else "the poll interval is %s: lost notifications are repaired only after %s, not within the %d s poll interval the property names" % (show(e)[:60], ("%g s" % secs) if secs is not None else "an unknown time", POLL_BOUND_SECS))
